@@ -26,6 +26,14 @@ def size_of(cls, c):
     return {"0": 0, "1": 1, "c-1": c - 1, "c": c, "c+1": c + 1, "2c": 2 * c, "2c+1": 2 * c + 1}[cls]
 
 
+# concrete spellings of the specification's three names; each keeps the filters' decisions (starts with "skip", ends with ".txt")
+VARIANTS = {"a": ["a", ".a", "a[b]c", "a b", "a*"], "b.txt": ["b.txt", ".b.txt", "b[1].txt"], "skip_c": ["skip_c", "skip[c]", "skip .c"]}
+
+
+def concretise(ents, m):
+    return [dict(e, name=m[e["name"]], **({"ents": concretise(e["ents"], m)} if e["kind"] == "d" else {})) for e in ents]
+
+
 def materialise(ents, path, c, rnd, contents):
     os.makedirs(path, exist_ok=True)
     for e in ents:
@@ -170,11 +178,14 @@ def main():
         for i, row in enumerate(rows):
             c = rnd.choice([1, 2, 3]) if rnd.random() < 0.9 else rnd.choice([7, 64000])
             flt = FILTERS[row["filter"]]
+            # half of the cases use the plain names, the others hidden names, names with pattern characters or blanks
+            m = {k: (v[0] if i % 2 == 0 else rnd.choice(v)) for k, v in VARIANTS.items()}
+            src_ents, dst_ents = concretise(row["src"], m), concretise(row["dst"], m)
             for direction in ("upload", "download"):
                 case = os.path.join(work, "case%d_%s" % (i, direction))
                 src, dst = os.path.join(case, "src"), os.path.join(case, "dst")
                 contents = {}
-                materialise(row["src"], src, c, rnd, contents)
+                materialise(src_ents, src, c, rnd, contents)
                 try:
                     if direction == "upload":
                         cl.run(lambda: classic.upload(cl.conn, src, dst, filter=flt, chunk_size=c))
@@ -186,12 +197,12 @@ def main():
                 n += 1
                 chk.evaluated()
                 chk.distinct(("case", json.dumps(row, sort_keys=True), direction, c))
-                bad = compare(src, dst, expected_listing(row["dst"], c))
+                bad = compare(src, dst, expected_listing(dst_ents, c))
                 if err is not None:
                     bad.append(("raised", "%s raised %r" % (direction, err)))
                 for key, msg in bad:
                     chk.violation("%s:%s" % (direction, key), "C20 %s with chunk size %d, filter %s: %s [source tree %s]" % (
-                        direction, c, row["filter"], msg, json.dumps(row["src"])),
+                        direction, c, row["filter"], msg, json.dumps(src_ents)),
                         {"row": row, "chunk": c, "direction": direction})
                 if not bad:
                     chk.validated()
